@@ -195,10 +195,10 @@ impl PackageTemplate {
     bump_candidates.insert(pending_claim.clone(), request.clone());
 //@with
     bump_candidates.entry(pending_claim.clone()).or_insert_with(|| request.clone());
-//@mutant snapshot_taken_before_the_merge
+//@mutant outpoint_put_back_is_not_merged
     assert!(request.merge_package(package, new_best_height + 1).is_ok());
 //@with
-    bump_candidates.insert(pending_claim.clone(), request.clone()); assert!(request.merge_package(package, new_best_height + 1).is_ok());
+    assert!(request.can_merge_with(&package, new_best_height + 1));
 //@end
 pub struct ClaimEvents {}
 impl ClaimEvents { #[verifier::external_body] pub fn retain<F: FnMut(&(ClaimId, u8)) -> bool>(&mut self, f: F) { unimplemented!() } }
